@@ -24,7 +24,9 @@
      keywords @list, @set and @default ("expandedValue, _ = api.Expand(...)"):
      the model records this as the [swallowed] flag of an occurrence.
    * the option plumbing of MerklizeJSONLD (merklize.go:1544-1611): default
-     safeMode = true, WithSafeMode, newJSONLDOptions, proc.Normalize (which builds
+     safeMode = true, WithSafeMode, WithDocumentLoader / IPFS options / the
+     process-wide default loader (possibly nil), a loader that answers differently
+     during Normalize and during Compact, newJSONLDOptions, proc.Normalize (which builds
      FRESH options for ToRDF, processor.go:572, so SafeMode is NOT forwarded to the
      expansion that produces the entries) and the final proc.Compact(obj, nil,
      options), the only place where safe mode can reject.
@@ -390,7 +392,8 @@ Definition non_term_def_keys : list string :=
 
 Section WithLoader.
   (* the document loader: URL -> the remote document (an object with "@context") *)
-  Variable loader : string -> option json.
+  (* Ok doc: served; Err: the fetch fails; Panic: a nil DocumentLoader is dereferenced *)
+  Variable loader : string -> res json.
   (* fuel for context processing (nesting of remote contexts, term dependencies) *)
   Variable cf : nat.
 
@@ -444,13 +447,15 @@ Section WithLoader.
           | JNull => Ok (Ctx [] None (if propagate then None else Some result))
           | JStr url =>
               match loader url with
-              | None => Err "loading remote context failed"
-              | Some (JObj rm) =>
+              | Ok (JObj rm) =>
                   match sassoc "@context" rm with
                   | Some rc => parse f result rc true
                   | None => Err "invalid remote context"
                   end
-              | Some _ => Err "invalid remote context"
+              | Ok _ => Err "invalid remote context"
+              | Err _ => Err "loading remote context failed"
+              | Panic w => Panic w
+              | Diverge => Diverge
               end
           | JObj m => apply_ctx_object result m
           | _ => Err "invalid local context"
@@ -636,86 +641,127 @@ Section WithLoader.
   Definition safe_rejects (d : json) : res bool :=
     os <- undefined_occ d ;; Ok (existsb unswallowed os).
 
-  (* ---- MerklizeJSONLD ---- *)
-  (* External code below the modelled level.  E: expanded document, DS: normalised
-     dataset, R: what the caller observes of the merklizer (root, entries), C:
-     compacted document. *)
-  Record backend (E DS R C : Type) := {
-    b_expand  : json -> res E;   (* JsonLdApi.Expand with SafeMode = false *)
-    b_to_rdf  : E -> res DS;     (* api.ToRDF + URDNA2015 normalisation *)
-    b_merk    : DS -> res R;     (* EntriesFromRDFWithHasher, entries map, AddEntriesToMerkleTree *)
-    b_compact : E -> res C       (* api.Compact against the empty context *)
-  }.
-  Arguments b_expand {E DS R C}.
-  Arguments b_to_rdf {E DS R C}.
-  Arguments b_merk {E DS R C}.
-  Arguments b_compact {E DS R C}.
-
-  Section Pipeline.
-    Context {E DS R C : Type} (B : backend E DS R C).
-
-    (* JsonLdProcessor.expand under options with the given SafeMode.  The two modes
-       run the same code except at step 7.3. *)
-    Definition expand (safe : bool) (d : json) : res E :=
-      if safe then
-        rej <- safe_rejects d ;;
-        if rej then Err "invalid property" else b_expand B d
-      else b_expand B d.
-
-    (* ld.JsonLdOptions as far as this property is concerned *)
-    Record ld_options := { ld_safe_mode : bool }.
-    (* merklize.go:1898 *)
-    Definition new_jsonld_options (safe : bool) : ld_options := {| ld_safe_mode := safe |}.
-    (* merklize.go:75 Options.JSONLDOptions(): always safe *)
-    Definition options_jsonld_options : ld_options := new_jsonld_options true.
-
-    (* processor.go:545 Normalize: toRDFOpts := NewJsonLdOptions(opts.Base) — a fresh
-       options value whose SafeMode is false, whatever [opts] says *)
-    Definition proc_normalize (opts : ld_options) (d : json) : res DS :=
-      let to_rdf_opts := {| ld_safe_mode := false |} in
-      e <- expand (ld_safe_mode to_rdf_opts) d ;;
-      b_to_rdf B e.
-    (* processor.go:34 Compact: opts.Copy() keeps SafeMode *)
-    Definition proc_compact (opts : ld_options) (d : json) : res C :=
-      e <- expand (ld_safe_mode opts) d ;;
-      b_compact B e.
-
-    (* merklize.go:1578-1611 *)
-    Definition merklize_doc (safe : bool) (d : json) : res R :=
-      let options := new_jsonld_options safe in
-      ds <- proc_normalize options d ;;
-      r <- b_merk B ds ;;
-      _ <- proc_compact options d ;;
-      Ok r.
-
-    (* Merklizer options: only the safe-mode field matters here; every other option
-       (hasher, tree, loaders) is an [OOther] *)
-    Record merklizer := { mz_safe_mode : bool }.
-    Inductive mz_option := WithSafeMode (b : bool) | OOther.
-    Definition apply_option (m : merklizer) (o : mz_option) : merklizer :=
-      match o with WithSafeMode b => {| mz_safe_mode := b |} | OOther => m end.
-    (* merklize.go:1547: mz := &Merklizer{safeMode: true}; for _, o := range opts { o(mz) } *)
-    Definition new_merklizer (opts : list mz_option) : merklizer :=
-      fold_left apply_option opts {| mz_safe_mode := true |}.
-    Definition MerklizeJSONLD (opts : list mz_option) (d : json) : res R :=
-      merklize_doc (mz_safe_mode (new_merklizer opts)) d.
-
-    (* verifiable/credential.go:449 W3CCredential.Merklize: the credential is
-       marshalled, "proof" deleted, and the options are passed on unchanged.
-       [vc_doc] is the document that results (abstract: encoding/json). *)
-    Definition W3CCredential_Merklize (vc_doc : json) (opts : list mz_option) : res R :=
-      MerklizeJSONLD opts vc_doc.
-    (* credential.go:494-511 ToCoreClaim: nil options -> MerklizerOpts nil *)
-    Definition ToCoreClaim_merklize (vc_doc : json) (core_opts : option (list mz_option)) : res R :=
-      W3CCredential_Merklize vc_doc (match core_opts with Some o => o | None => [] end).
-    (* credential.go:64,91-127 VerifyProof -> verifyCredentialCoreClaim -> ToCoreClaim
-       with verifyConfig.merklizeOptions (no public option sets it: nil) *)
-    Definition VerifyProof_merklize (vc_doc : json) (merklize_options : list mz_option) : res R :=
-      ToCoreClaim_merklize vc_doc (Some merklize_options).
-  End Pipeline.
 End WithLoader.
 
+(* ------------------------------------------------------ MerklizeJSONLD *)
+(* How a document loader answers during one phase of a merklization. *)
+Definition lview := string -> res json.
+(* options.DocumentLoader = nil: json-gold dereferences it at the first remote context *)
+Definition nil_view : lview := fun _ => Panic "nil DocumentLoader".
+
+(* A document loader is a stateful object (caches, hosts that come and go): what
+   matters here is how it answers while proc.Normalize runs and how it answers
+   while the final proc.Compact runs.  Nothing relates the two views. *)
+Record dloader := { dl_normalize : lview; dl_compact : lview }.
+Definition view_normalize (l : option dloader) : lview :=
+  match l with Some d => dl_normalize d | None => nil_view end.
+Definition view_compact (l : option dloader) : lview :=
+  match l with Some d => dl_compact d | None => nil_view end.
+
+(* External code below the modelled level.  E: expanded document, DS: normalised
+   dataset, R: what the caller observes of the merklizer (root, entries), C:
+   compacted document. *)
+Record backend (E DS R C : Type) := {
+  b_expand  : lview -> json -> res E;   (* JsonLdApi.Expand with SafeMode = false *)
+  b_to_rdf  : E -> res DS;     (* api.ToRDF + URDNA2015 normalisation *)
+  b_merk    : DS -> res R;     (* EntriesFromRDFWithHasher, entries map, AddEntriesToMerkleTree *)
+  b_compact : E -> res C       (* api.Compact against the empty context *)
+}.
 Arguments b_expand {E DS R C}.
 Arguments b_to_rdf {E DS R C}.
 Arguments b_merk {E DS R C}.
 Arguments b_compact {E DS R C}.
+
+Section Pipeline.
+  (* fuel for context processing *)
+  Variable cf : nat.
+  Context {E DS R C : Type} (B : backend E DS R C).
+
+  (* JsonLdProcessor.expand under options with the given SafeMode and a loader
+     answering like [ld].  The two modes run the same code except at step 7.3.  In
+     safe mode a context that cannot be loaded / processed is an error before any
+     key is looked at (the scan fails). *)
+  Definition expand (safe : bool) (ld : lview) (d : json) : res E :=
+    if safe then
+      rej <- safe_rejects ld cf d ;;
+      if rej then Err "invalid property" else b_expand B ld d
+    else b_expand B ld d.
+
+  (* ld.JsonLdOptions as far as this property is concerned *)
+  Record ld_options := { ld_safe_mode : bool; ld_document_loader : option dloader }.
+  (* merklize.go:1898 newJSONLDOptions(safeMode, docLoader): both fields are set
+     whatever docLoader is (nil included) *)
+  Definition new_jsonld_options (safe : bool) (dl : option dloader) : ld_options :=
+    {| ld_safe_mode := safe; ld_document_loader := dl |}.
+  (* merklize.go:75 Options.JSONLDOptions(): always safe *)
+  Definition options_jsonld_options (dl : option dloader) : ld_options := new_jsonld_options true dl.
+
+  (* processor.go:545 Normalize: toRDFOpts := NewJsonLdOptions(opts.Base) — a fresh
+     options value whose SafeMode is false, whatever [opts] says; only the
+     DocumentLoader is copied over *)
+  Definition proc_normalize (opts : ld_options) (d : json) : res DS :=
+    let to_rdf_opts := {| ld_safe_mode := false; ld_document_loader := ld_document_loader opts |} in
+    e <- expand (ld_safe_mode to_rdf_opts) (view_normalize (ld_document_loader to_rdf_opts)) d ;;
+    b_to_rdf B e.
+  (* processor.go:34 Compact: opts.Copy() keeps SafeMode and DocumentLoader *)
+  Definition proc_compact (opts : ld_options) (d : json) : res C :=
+    e <- expand (ld_safe_mode opts) (view_compact (ld_document_loader opts)) d ;;
+    b_compact B e.
+
+  (* merklize.go:1578-1611: any error of the final Compact is returned *)
+  Definition merklize_doc (safe : bool) (dl : option dloader) (d : json) : res R :=
+    let options := new_jsonld_options safe dl in
+    ds <- proc_normalize options d ;;
+    r <- b_merk B ds ;;
+    _ <- proc_compact options d ;;
+    Ok r.
+
+  (* Merklizer fields that matter here; every other option (hasher, tree) is [OOther].
+     [mz_ipfs]: the loader loaders.NewDocumentLoader(ipfsCli, ipfsGW) would build, if
+     an IPFS client or gateway was configured. *)
+  Record merklizer := {
+    mz_safe_mode : bool;
+    mz_document_loader : option dloader;
+    mz_ipfs : option dloader
+  }.
+  Inductive mz_option :=
+  | WithSafeMode (b : bool)
+  | WithDocumentLoader (l : option dloader)      (* nil allowed *)
+  | WithIPFS (l : dloader)                       (* WithIPFSClient / WithIPFSGateway *)
+  | OOther.
+  Definition apply_option (m : merklizer) (o : mz_option) : merklizer :=
+    match o with
+    | WithSafeMode b => {| mz_safe_mode := b; mz_document_loader := mz_document_loader m; mz_ipfs := mz_ipfs m |}
+    | WithDocumentLoader l => {| mz_safe_mode := mz_safe_mode m; mz_document_loader := l; mz_ipfs := mz_ipfs m |}
+    | WithIPFS l => {| mz_safe_mode := mz_safe_mode m; mz_document_loader := mz_document_loader m; mz_ipfs := Some l |}
+    | OOther => m
+    end.
+  (* merklize.go:1547: mz := &Merklizer{safeMode: true}; for _, o := range opts { o(mz) } *)
+  Definition new_merklizer (opts : list mz_option) : merklizer :=
+    fold_left apply_option opts {| mz_safe_mode := true; mz_document_loader := None; mz_ipfs := None |}.
+  (* merklize.go:1631 getDocumentLoader; [default] = the process-wide
+     defaultDocumentLoader (SetDocumentLoader may have set it to nil) *)
+  Definition get_document_loader (default : option dloader) (m : merklizer) : option dloader :=
+    match mz_document_loader m with
+    | Some l => Some l
+    | None => match mz_ipfs m with Some l => Some l | None => default end
+    end.
+  Definition MerklizeJSONLD (default : option dloader) (opts : list mz_option) (d : json) : res R :=
+    let m := new_merklizer opts in
+    merklize_doc (mz_safe_mode m) (get_document_loader default m) d.
+
+  (* verifiable/credential.go:449 W3CCredential.Merklize: the credential is
+     marshalled, "proof" deleted, and the options are passed on unchanged.
+     [vc_doc] is the document that results (abstract: encoding/json). *)
+  Definition W3CCredential_Merklize (default : option dloader) (vc_doc : json) (opts : list mz_option) : res R :=
+    MerklizeJSONLD default opts vc_doc.
+  (* credential.go:494-511 ToCoreClaim: nil options -> MerklizerOpts nil *)
+  Definition ToCoreClaim_merklize (default : option dloader) (vc_doc : json)
+             (core_opts : option (list mz_option)) : res R :=
+    W3CCredential_Merklize default vc_doc (match core_opts with Some o => o | None => [] end).
+  (* credential.go:64,91-127 VerifyProof -> verifyCredentialCoreClaim -> ToCoreClaim
+     with verifyConfig.merklizeOptions (no public option sets it: nil) *)
+  Definition VerifyProof_merklize (default : option dloader) (vc_doc : json)
+             (merklize_options : list mz_option) : res R :=
+    ToCoreClaim_merklize default vc_doc (Some merklize_options).
+End Pipeline.
